@@ -34,6 +34,43 @@ def byte_ordered(u, n, order):
     return ite(order == 'leastSignificantByteFirst', le(tb(u, ceil8(n))), u)
 
 
+# ---- match criteria (C06) ----------------------------------------------------------------------------------------------
+
+def sem_rel(op, a, b):
+    """the six mathematical relations in every accepted spelling"""
+    return ite(op == '==' or op == 'eq', a == b,
+               ite(op == '!=' or op == 'neq', a != b,
+                   ite(op == '&lt;' or op == 'lt' or op == '<', a < b,
+                       ite(op == '&gt;' or op == 'gt' or op == '>', a > b,
+                           ite(op == '&lt;=' or op == 'leq' or op == '<=', a <= b, a >= b)))))
+
+
+def selected_value(c, packet, cur):
+    """the calibrated or raw value of the referenced parameter as selected; the current raw value when the parameter
+    is not in the packet yet"""
+    return ((packet[c.referenced_parameter] if c.use_calibrated_value else packet[c.referenced_parameter].raw_value)
+            if c.referenced_parameter in packet else cur)
+
+
+def sem_comparison(c, packet, cur):
+    """truth of one Comparison: the relation applied to the selected value and the literal read in that value's type"""
+    return sem_rel(c.operator, selected_value(c, packet, cur), coerce_like(selected_value(c, packet, cur), c.required_value))
+
+
+def cond_side(packet, name, use_calibrated):
+    return packet[name] if use_calibrated else packet[name].raw_value
+
+
+def cond_right(c, packet):
+    """right operand of a Condition: the other parameter as selected, or the fixed value read in the LEFT operand's type"""
+    return (coerce_like(cond_side(packet, c.left_param, c.left_use_calibrated_value), c.right_value)
+            if is_none(c.right_param) else cond_side(packet, c.right_param, c.right_use_calibrated_value))
+
+
+def sem_condition(c, packet):
+    return sem_rel(c.operator, cond_side(packet, c.left_param, c.left_use_calibrated_value), cond_right(c, packet))
+
+
 # ---- calibration (C08) ----------------------------------------------------------------------------------------------------
 
 def chord(p0, p1, q):
